@@ -315,6 +315,15 @@ done:
       flags |= ARES_CONN_STATE_WRITE;
     }
 
+    /* A TCP connection that isn't known to be established yet still needs the
+     * write event that announces it.  Queries enqueued in the meantime are
+     * held back until that event, so it must not be cancelled by a flush that
+     * happened to find nothing to write. */
+    if (conn->flags & ARES_CONN_FLAG_TCP &&
+        !(conn->state_flags & ARES_CONN_STATE_CONNECTED)) {
+      flags |= ARES_CONN_STATE_WRITE;
+    }
+
     ares_conn_sock_state_cb_update(conn, flags);
   }
 
